@@ -188,7 +188,7 @@ def list_properties(igb, object_bits=12, checks=True):
 CONTRACT_LEVEL = re.compile(r'postcondition|loop_invariant|precondition|assertion|loop_decreases|loop_step|loop_assigns')
 
 
-def split_run(igb, solvers, timeout, workers=6, object_bits=12, extra=(), log=None, support_timeout=None):
+def split_run(igb, solvers, timeout, workers=6, object_bits=12, extra=(), log=None, support_timeout=None, failfast=False):
     """Every contract-level property on its own (first solver to answer wins); the support properties grouped by
     function, a group that no solver decides is bisected until single properties remain.
     Returns (props: list of dicts like cbmc's result entries + solver/secs, notes)."""
@@ -221,7 +221,15 @@ def split_run(igb, solvers, timeout, workers=6, object_bits=12, extra=(), log=No
     ex = concurrent.futures.ThreadPoolExecutor(max_workers=workers)
     pending = []
 
+    stop = th.Event()
+
     def task(group, to, depth):
+        if failfast and stop.is_set():
+            # a failing obligation has been found already (quick tier): the remaining ones are not needed for the verdict
+            with lock:
+                for p in group:
+                    out.append(dict(property=p['name'], description=p.get('description', ''), sourceLocation=p.get('sourceLocation', {}), status='UNKNOWN', solver='', secs=0))
+            return
         best = run_group(group, to)
         if best is None:
             if len(group) > 1 and depth < 12:
@@ -237,6 +245,10 @@ def split_run(igb, solvers, timeout, workers=6, object_bits=12, extra=(), log=No
             return
         s, r, pz = best
         got = dict((x['property'], x) for x in pz['props'])
+        if failfast and pz['status'] == 'failure' and any(str(got.get(p['name'], {}).get('status', '')).upper() in ('FAILURE', 'FAILED') and 'VP_CANARY' not in (p.get('description', '') + got.get(p['name'], {}).get('description', '')) for p in group):
+            if not stop.is_set():
+                notes.append('quick tier: a failing obligation was found; obligations not yet started were skipped')
+            stop.set()
         with lock:
             for p in group:
                 x = got.get(p['name'])
